@@ -403,6 +403,51 @@ def unit_member(kind):
     return Unit('member/%s' % kind, run, funcs=[SPACE + 'LinearSpace.__contains__', BT + 'TensorSpace.__contains__'], config={'space': kind})
 
 
+def unit_pspace_element(k, m):
+    """ProductSpace.element(inp) for a sequence of m proper elements of the factor spaces handed to a product of k arbitrary factor spaces: for m != k the call is rejected
+    (ValueError / TypeError) before anything is returned; for m == k the result is an element of the very space with exactly these parts - so that whatever
+    `element` returns satisfies  `res in space`  and has as many parts as the space has factors (membership coherent with the factory)"""
+    def run(ctx):
+        I = ctx.I
+
+        def path(st):
+            install(st)
+            fr = ip.Frame(st)
+            sp = B_pspace(I, st, fr, 'a', {'n_a': k})
+            leaves = sp.fields['_ProductSpace__spaces']
+            inp = []
+            for i in range(m):
+                x = ip.Obj(I.get_class(SPACE + 'LinearSpaceElement'))
+                x.fields['_LinearSpaceElement__space'] = leaves[i] if i < k else leaves[0]
+                inp.append(x)
+            try:
+                res = I.call(I._getattr(sp, 'element', fr), [list(inp)], {}, fr)
+            except ip.PyRaise as e:
+                return ('raise', e.exc)
+            try:
+                member = as_sbool(I.contains(sp, res, fr))
+            except ip.PyRaise as e:
+                return ('raise2', e.exc)
+            return ('ok', (sp, inp, res, member))
+        info = {'factors': k, 'sequence_length': m}
+        for st, (status, r) in ctx.explore(path):
+            if m != k:
+                ctx.prove(st, 'a sequence of the wrong length is rejected with ValueError / TypeError', status == 'raise' and lib.exc_name(r) in ('ValueError', 'TypeError'),
+                          dict(info, got='returned %r' % (r[2],) if status == 'ok' else lib.exc_desc(r)))
+                continue
+            if status != 'ok':
+                ctx.fail(st, 'a sequence of proper elements of the right length is accepted', 'raises %s' % lib.exc_desc(r), info)
+                continue
+            sp, inp, res, member = r
+            okr = isinstance(res, ip.Obj) and res.fields.get('_LinearSpaceElement__space') is sp
+            ctx.prove(st, 'the result is an element of the very space', okr, info)
+            parts = res.fields.get('_ProductSpaceElement__parts') if isinstance(res, ip.Obj) else None
+            ctx.prove(st, 'its parts are exactly the given elements (as many as the space has factors)', parts is not None and len(parts) == k and all(a is b for a, b in zip(parts, inp)), info)
+            ctx.prove(st, 'res in space', member, info)
+    return Unit('derived/pspace-element/k=%d/len=%d' % (k, m), run, funcs=[PS + 'ProductSpace.element', PS + 'ProductSpaceElement.__init__', SPACE + 'LinearSpace.__contains__'],
+                config={'factors': k, 'sequence_length': m})
+
+
 def unit_astype(dtype_from, dtype_to, wkind):
     """TensorSpace._astype / astype: the new space has the same shape, the requested dtype and (for floating dtypes) the very weighting
     of the original - constant, array and exponent.  The constructor call type(self)(shape, dtype=, weighting=) is a cut (its arguments are the claim)."""
@@ -525,6 +570,8 @@ def units(tier, seed):
     for f, t in (('float64', 'float32'), ('float64', 'complex128'), ('complex128', 'float64'), ('float64', 'int64')):
         for wk in ('const', 'array'):
             us.append(unit_astype(f, t, wk))
+    for k, m in ((2, 2), (2, 1), (2, 3), (3, 3), (3, 2), (3, 4), (1, 1), (1, 2), (2, 0)):
+        us.append(unit_pspace_element(k, m))
     fl = ('float16', 'float32', 'float64', 'complex64', 'complex128')
     for d0 in fl:
         for d1 in fl:
